@@ -242,6 +242,9 @@ extern "C" void vp_main() {
     uint8_t cnt = g_notifyCount[0];
     // (1) conservation: the request is in exactly one place, never in two, deleted at most once
     unsigned places = (cur ? 1u : 0u) + inNext + inFin + g_deleted[0];
+#if MODE == 2
+    vp_assert("no-request-is-involved-in-the-closing-syn", places == 0 && cnt == 0);   // the request of the ended exchange was disposed of before
+#else
     vp_assert("request-is-in-exactly-one-place", places == 1);
     vp_assert("nothing-else-became-current", h.m_currentRequest == nullptr || cur);
     // (2) the place agrees with the completion callbacks
@@ -265,7 +268,6 @@ extern "C" void vp_main() {
     }
     if (wasArb && fault && !devError && !noSignal) vp_assert("timeout-while-awaiting-the-echo-leaves-the-request-queued", cnt == 0 && inNext == 1);
     if (noSignal) vp_assert("no-signal-completes-every-request", cnt >= 1 && inNext == 0 && !cur);
-    if (wasEndSyn) vp_assert("closing-syn-touches-no-request", cnt == 0 && g_deleted[0] == 0);
     // a completion whose callback asks for a restart re-queues the request (and only loss of signal may then end the new life)
     // (the no-signal drain of a QUEUED request ignores the answer of the callback by design: "notify all requests")
     bool drainedOnly = noSignal && cnt == 1 && g_notifyResult[0] == RESULT_ERR_NO_SIGNAL;
@@ -274,6 +276,7 @@ extern "C" void vp_main() {
       if (del0) vp_assert("self-deleting-request-deleted-once-and-nowhere-queued", g_deleted[0] == 1 && inNext == 0 && inFin == 0);
       else vp_assert("waited-request-handed-to-the-finished-queue-once", g_deleted[0] == 0 && inNext == 0 && inFin == 1);
     }
+#endif
     // bystanders
     if (haveOther && !noSignal) {
       vp_assert("queued-bystander-untouched", g_notifyCount[1] == 0 && g_deleted[1] == 0 && countIn(h.m_nextRequests, req1) == 1 && countIn(h.m_finishedRequests, req1) == 0 && h.m_currentRequest != req1);
